@@ -189,11 +189,12 @@ func (t *tree) doInsert(
 				t.pendingRemovedNodes = append(t.pendingRemovedNodes, ptr.ExtractUnchecked())
 			}
 
+			// No longer eligible for eviction as it is dirty. This needs to be done before
+			// the value is updated as the cache accounts for the size of the (old) value.
+			t.cache.rollbackNode(ptr)
 			n.Value = val
 			n.Clean = false
 			ptr.SetDirty()
-			// No longer eligible for eviction as it is dirty.
-			t.cache.rollbackNode(ptr)
 			return insertResult{
 				newRoot:      ptr,
 				insertedLeaf: ptr,
